@@ -163,3 +163,44 @@ def artefacts(typer, f: FuncInfo) -> FuncArtefacts:
         a = FuncArtefacts(typer, f)
         _ART[key] = a
     return a
+
+
+def flag_states(cfg: CFG, flag: str) -> Dict[int, FrozenSet[str]]:
+    """
+    For a boolean local/parameter ``flag``: per node, the set of last observed
+    truth values ('T', 'F', '?') over all paths reaching the node.  A node is
+    control-dependent on ``flag`` being true iff its set is {'T'}.
+    """
+
+    def transfer(node: Node, st: str):
+        if flag in stores(node):
+            return ["?"]
+        return [st]
+
+    def edge(node: Node, st: str, label):
+        if node.kind == "test" and isinstance(node.expr, ast.Name) and node.expr.id == flag and label in (True, False):
+            if st == "T" and label is False:
+                return None
+            if st == "F" and label is True:
+                return None
+            return "T" if label else "F"
+        return st
+
+    return set_dataflow(cfg, frozenset(["?"]), transfer, edge)
+
+
+def find_calls(func_node: ast.AST, pred) -> List[ast.Call]:
+    out = []
+    for n in ast.walk(func_node):
+        if isinstance(n, ast.Call) and pred(n):
+            out.append(n)
+    return out
+
+
+def kwarg(call: ast.Call, name: str, pos: Optional[int] = None) -> Optional[ast.expr]:
+    for kw in call.keywords:
+        if kw.arg == name:
+            return kw.value
+    if pos is not None and len(call.args) > pos:
+        return call.args[pos]
+    return None
